@@ -15,7 +15,9 @@ import (
 )
 
 type expected struct {
-	c      chan *Conn
+	c chan *Conn
+	// done is closed when the Expect call has stopped waiting.
+	done   <-chan struct{}
 	cancel context.CancelFunc
 }
 
@@ -59,11 +61,19 @@ func (l *Listener) Expect(ctx context.Context, from jid.JID, sid string) (net.Co
 	e.c = make(chan *Conn)
 	ctx, cancel := context.WithCancel(ctx)
 	e.cancel = cancel
+	e.done = ctx.Done()
 	l.expected[key] = e
 	l.eLock.Unlock()
 
 	select {
 	case <-ctx.Done():
+		// Nobody waits for this stream any longer (unless a later call took the
+		// expectation over).
+		l.eLock.Lock()
+		if cur, ok := l.expected[key]; ok && cur.c == e.c {
+			delete(l.expected, key)
+		}
+		l.eLock.Unlock()
 		return nil, ctx.Err()
 	case conn, ok := <-e.c:
 		if !ok {
